@@ -160,8 +160,8 @@ def stage_fuzz(ctx, base_env):
     env = dict(m.GOENV)
     env.update(base_env)
     env.update({"VERIF_FUZZ": "1", "VERIF_SHARD": "fuzz", "GOFLAGS": "-mod=mod"})
-    cmd = ["go", "test", "-vet=off", "-run", "^$", "-fuzz", "^Fuzz%s$" % pid, "-fuzztime", fuzztime,
-           "-test.fuzzcachedir", cache, "./props"]
+    cmd = ["go", "test", "-vet=off", "./props", "-run", "^$", "-fuzz", "^Fuzz%s$" % pid, "-fuzztime", fuzztime,
+           "-test.fuzzcachedir", cache]
     t0 = time.time()
     rc, out = m.run(cmd, env=env, cwd=HARNESS, timeout=tconf.get("fuzz_timeout", 1800))
     # remove crashers that go test stored under the package (our own replay file is the reproducible unit)
